@@ -6,6 +6,7 @@ cd /repo || exit 2
 if ! git diff --quiet; then echo "refusing: /repo has uncommitted changes"; exit 2; fi
 git apply "$patch" || { echo "patch does not apply"; exit 2; }
 if git diff --quiet; then echo "patch not applied"; exit 2; fi
+mkdir -p /tmp/vr-seeded; cp /verif/known-findings.json /tmp/vr-seeded/known-findings.json
 out=$(cd /verif && VERIF_ROOT=/tmp/vr-seeded ./check "$id" "$tier" 2>&1)
 rc=$?
 git -C /repo checkout -- . ; git -C /repo clean -fdq -- . >/dev/null 2>&1
